@@ -45,7 +45,7 @@ def illegalInitial (k : Kind) (c : Char) : Bool :=
     `str` pattern the class `[A-Z]` also matches U+0130, U+0131, U+017F and U+212A. -/
 def isLegalChar (c : Char) : Bool :=
   c.isAlphanum || c == '_' || c == '$' ||
-  c == 'İ' || c == 'ı' || c == 'ſ' || c == 'K'
+  c == '\u0130' || c == '\u0131' || c == '\u017f' || c == '\u212a'
 
 /-- `legal_characters.match(value)`: one or more legal characters; Python's `$` also matches just
     before one trailing newline. -/
@@ -56,7 +56,7 @@ def legalChars : Str → Bool
   | c :: r => isLegalChar c && legalChars r
 
 /-- `value.lower() != value` restricted to the characters that can pass `legalChars`. -/
-def isUpperCh (c : Char) : Bool := c.isUpper || c == 'İ' || c == 'K'
+def isUpperCh (c : Char) : Bool := c.isUpper || c == '\u0130' || c == '\u212a'
 
 def hasUpper (n : Str) : Bool := n.any isUpperCh
 
@@ -137,6 +137,10 @@ def formatTableName (k : Kind) (reserved : Str → Bool) (name : Name) (schema :
 
 /-- `alembic.ddl.base.format_column_name` -/
 def formatColumnName (k : Kind) (reserved : Str → Bool) (name : Name) : Str := quoteName k reserved name
+
+/-- A correctly escaped SQL string literal for `s` (single quotes doubled).  Alembic's MSSQL visitors
+    do NOT do this (they write `'` ++ s ++ `'`); this is the candidate fix referred to by F7. -/
+def sqlLiteral (s : Str) : Str := '\'' :: (escapeClose '\'' s ++ ['\''])
 
 /-- Python `str.isspace` for one character (used by `str.strip()` in `DefaultImpl._exec`) -/
 def isPySpace (c : Char) : Bool :=
